@@ -331,6 +331,34 @@ func (e *Exec) rtIntrinsic(name string, fn *ssa.Function, args []Value) (Value, 
 		return (&SliceV{a: a, len: l, gocap: l, isNil: tb.ff, minLen: k}).withMax(k), true
 	case "Keccak":
 		return e.keccak(e.asBytes(args[0], name)), true
+	case "Parallel":
+		// two bodies that run on two goroutines natively: executed one after the other here, with the
+		// package-level memory each one reads and writes outside any lock recorded; a write by one that
+		// the other reads or writes is a data race under some schedule
+		type acc struct{ r, w map[interface{}]string }
+		var as [2]acc
+		for i := 0; i < 2; i++ {
+			e.trackAcc, e.accR, e.accW = true, map[interface{}]string{}, map[interface{}]string{}
+			e.callValue(args[i], nil)
+			as[i] = acc{e.accR, e.accW}
+			e.trackAcc = false
+		}
+		e.raced = false
+		for i := 0; i < 2; i++ {
+			for o, site := range as[i].w {
+				other, hit := as[1-i].w[o]
+				if !hit {
+					other, hit = as[1-i].r[o]
+				}
+				if hit && !e.raced {
+					e.raced = true
+					e.events = append(e.events, "race: "+site+" || "+other)
+				}
+			}
+		}
+		return nil, true
+	case "Raced":
+		return tb.Bool(e.raced), true
 	case "Recover":
 		d, sg := e.asBytes(args[0], name), e.asBytes(args[1], name)
 		var hp, sp []*Term
